@@ -6,7 +6,8 @@ CONSTANTS
   Seat <- Seat3
   MaxRounds = 1
   MaxReqs = 1
-  MaxDeliver = 2
+  MaxDkgDeliver = 1
+  MaxRelayDeliver = 2
   MaxBad = 0
   MaxStops = 0
   MaxViewMis = 1
